@@ -66,6 +66,33 @@ def run():
     sc.check("UnsupportedError:raised-only-through-funnel", not offenders,
              "UnsupportedError reaches the caller only via Generator.unsupported()/generate(): direct raises live in transform functions whose call sites convert them",
              f"{offenders[:5]}")
+    # generate() resets unsupported_messages AFTER preprocess(): a message recorded while preprocessing would be dropped under
+    # WARN / RAISE but raise under IMMEDIATE.  Frame condition: nothing reachable from Generator.preprocess through self.<m>()
+    # calls (any generator class in the scanned files; overrides are looked up by name) calls self.unsupported.
+    by_name = {}
+    for path in files("sqlglot/generator.py", "sqlglot/generators/*.py", "sqlglot/dialects/*.py"):
+        rel = os.path.relpath(path, REPO)
+        for n in ast.walk(tree_of(path)):
+            if isinstance(n, ast.ClassDef):
+                for m in n.body:
+                    if isinstance(m, ast.FunctionDef) and m.args.args and m.args.args[0].arg == "self":
+                        by_name.setdefault(m.name, []).append((f"{rel}:{n.name}.{m.name}", m))
+    seen, todo, reporters = set(), ["preprocess"], []
+    while todo:
+        name = todo.pop()
+        if name in seen:
+            continue
+        seen.add(name)
+        for site, fn in by_name.get(name, []):
+            for c in ast.walk(fn):
+                if isinstance(c, ast.Call) and isinstance(c.func, ast.Attribute) and isinstance(c.func.value, ast.Name) and c.func.value.id == "self":
+                    if c.func.attr == "unsupported":
+                        reporters.append(f"{site}:{c.lineno}")
+                    elif c.func.attr in by_name:
+                        todo.append(c.func.attr)
+    sc.check("preprocess:records-no-unsupported", not reporters and "preprocess" in by_name,
+             "no generator method reachable from Generator.preprocess() calls self.unsupported() (generate() clears the messages after preprocessing)",
+             f"{reporters[:5]}; reachable methods: {sorted(seen)[:12]}")
     # parse_into reads e.errors of ParseError objects (not self.errors): confirm it never touches self.errors
     sc.assumptions.append("frame scans are syntactic: getattr/setattr with computed names and aliasing of the parser object under another attribute name are not covered")
     return sc
